@@ -111,6 +111,15 @@ def sessions(seed, fams, ncalls):
     out = []
     for d in fams:
         voc = vocabulary(d) + ["1", "x", "2"]
+        # near misses of the declared names (what the "did you mean" machinery compares): a non-ASCII first or last
+        # character, the dashes dropped, another script, a byte that is not text
+        longs = [x[2:] for x in voc if x.startswith("--") and "=" not in x and len(x) > 3]
+        words = [x for x in voc if x and x[0] not in "-@" and "=" not in x and len(x) > 2]
+        near = []
+        for n in longs[:4] + words[:3]:
+            near += ["%C3%B1" + n[1:], "%C3%BC" + n, n[:-1] + "%C3%A9", "--" + n[:-1] + "%C3%A9", "%FF" + n[1:], n[:1] + "%E4%B8%AD" + n[2:],
+                     "%D0%B4%D0%BE%D0%B1%D0%B0%D0%B2%D0%B8%D1%82%D1%8C-" + n]
+        voc_near = near
         calls = []
         letters = [x[1:] for x in voc if len(x) >= 2 and x[0] == "-" and x[1] != "-" and "=" not in x]
         def cluster():
@@ -120,7 +129,9 @@ def sessions(seed, fams, ncalls):
             r = rnd.random()
             if r < 0.15 and letters:
                 return cluster()
-            return rnd.choice(voc) if r < 0.75 else rnd.choice(HOSTILE_ARGS)
+            if r < 0.25 and voc_near:
+                return rnd.choice(voc_near)
+            return rnd.choice(voc) if r < 0.8 else rnd.choice(HOSTILE_ARGS)
         def argv():
             k = rnd.choice([0, 1, 1, 2, 2, 3, 4, 6])
             return [one() for _ in range(k)]
